@@ -385,7 +385,14 @@ Path_dw = path_type("dw", docstring="path to a directory that exists and is writ
 Path_dc = path_type("dc", docstring="path to a directory that can be created if it does not exist")
 Path_drw = path_type("drw", docstring="path to a directory that exists and is readable and writeable")
 
-register_type(os.PathLike, str, str)
+
+def pathlike_deserializer(value):
+    if not isinstance(value, (str, os.PathLike)):
+        raise ValueError(f"Expected a path string but got {value!r}")
+    return str(value)
+
+
+register_type(os.PathLike, str, pathlike_deserializer)
 register_type(complex)
 
 
